@@ -548,7 +548,7 @@ theorem post_makeRef_go {st : St} (hI : Inv st) {orig : Nat} {forig : Frame}
             · intro v hv; cases hv; rw [hs.1]; exact hr1
             · intro v hv; cases hv; exact ⟨⟨re, hre⟩, hs.2.2.2⟩
           have hjp : ∀ refDepth : Nat, Post
-              (if (!(isConstant name && refDepth == 0) && !isFuncObj obj) = true then do
+              (if (!(isConstant name && refDepth == 0) && !(isFuncObj obj && refDepth == 0)) = true then do
                   let __r ← modifyFrame orig fun f => { f with getMiss := f.getMiss + 1 }
                   (fun _ => pure (some r) : Unit → M (Option Obj)) __r
                 else pure (some r)) s (RefQ st orig name) := by
@@ -671,7 +671,7 @@ theorem post_envGet {st : St} (hI : Inv st) {e : Nat} (he : e < st.frames.size) 
             let tgt ← refValue re rn
             let __do_lift ← getFrame re
             have __do_jp : Unit → M (Option Obj) := fun __r => pure (some (Obj.ref re rn))
-            if (!(isConstant rn && __do_lift.depth == 0) && !isFuncObj tgt) = true then do
+            if (!(isConstant rn && __do_lift.depth == 0) && !(isFuncObj tgt && __do_lift.depth == 0)) = true then do
                 let __r ←
                   modifyFrame e fun f =>
                       { store := f.store, outer := f.outer, depth := f.depth, cacheKey := f.cacheKey,
